@@ -6,7 +6,7 @@ wt=/tmp/mx_${kind}_${id}_$$
 mkdir -p $wt && rsync -a --exclude .git /repo/ $wt/ || { echo "$id: COPY-FAILED"; exit 0; }
 trap "rm -rf $wt" EXIT
 if ! (cd $wt && git apply $d/patch.diff 2>/dev/null); then echo "$id: PATCH-DOES-NOT-APPLY"; exit 0; fi
-out=$(PLUSH_REPO=$wt /verif/bin/plushcheck -prop all -no-evidence 2>&1); rc=$?
+out=$(PLUSH_REPO=$wt ${PLUSHCHECK:-/verif/bin/plushcheck} -prop all -no-evidence 2>&1); rc=$?
 n=$(echo "$out" | grep -c "^C[0-9]* quick:")
 if [ "$n" != "20" ]; then echo "$id: CHECK-INCOMPLETE rc=$rc summaries=$n"; echo "$out" | tail -5 | cut -c1-300; exit 0; fi
 fired=$(echo "$out" | grep -o "^VIOLATION property=C[0-9]*" | sort -u | sed 's/VIOLATION property=//' | tr '\n' ' ')
